@@ -388,6 +388,11 @@ of_status_t	of_rs_finish_decoding (of_rs_cb_t*	ofcb)
 	 * Let's decode now.
 	 * Create a context first, decode, then release this context.
 	 */
+	if (ofcb->rs_cb != NULL)
+	{
+		/* an OF_ENCODER_AND_DECODER session that already encoded owns a context: do not lose it */
+		of_rs_free (ofcb->rs_cb);
+	}
 	ofcb->rs_cb = of_rs_new (ofcb->nb_source_symbols, ofcb->nb_encoding_symbols);
 	if (of_rs_decode (ofcb->rs_cb, (void**)tmp_buf, (int*)tmp_esi, ofcb->encoding_symbol_length) != OF_STATUS_OK)
 	{
